@@ -89,6 +89,10 @@ SCHED_DOM_EQUIV = {
     'chunks(call(EvaluationDomain::extended_to_coeff))': 'call(EvaluationDomain::get_quotient_poly_degree)',
     # ipa_prove asserts scalars.len() == bases1.len() == bases2.len() at entry; the verifier has no scalars
     'param:scalars': 'param:bases1',
+    # ParamsKZG keeps 2^k monomial and 2^k Lagrange bases (constructor invariant; the reader derives n = 1 << k from the k it read)
+    'params::ParamsKZG.g': 'PARAMS_N',
+    'params::ParamsKZG.g_lagrange': 'PARAMS_N',
+    'range((i:1 << len<READ>))': 'PARAMS_N',
 }
 
 
@@ -135,3 +139,49 @@ def golden_plonk():
         op('squeeze', S),                                                    # x4
         op('write', Pt),                                                     # pi
     ])
+
+# ---------------------------------------------------------------- C17
+_PL = 'midnight_proofs::plonk::'
+C17_PAIRS = [
+    (_PL + 'VerifyingKey::write', _PL + 'VerifyingKey::read_from_cs'),
+    (_PL + 'permutation::VerifyingKey::write', _PL + 'permutation::VerifyingKey::read'),
+    (_PL + 'ProvingKey::write', _PL + 'ProvingKey::read'),
+    (_PL + 'permutation::ProvingKey::write', _PL + 'permutation::ProvingKey::read'),
+    ('midnight_proofs::poly::Polynomial::write', 'midnight_proofs::poly::Polynomial::read'),
+    ('midnight_proofs::utils::helpers::write_polynomial_slice', 'midnight_proofs::utils::helpers::read_polynomial_vec'),
+    ('<C as midnight_proofs::utils::helpers::ProcessedSerdeObject>::write', '<C as midnight_proofs::utils::helpers::ProcessedSerdeObject>::read'),
+    ('midnight_proofs::poly::kzg::params::ParamsKZG::write_custom', 'midnight_proofs::poly::kzg::params::ParamsKZG::read_custom'),
+    ('midnight_proofs::poly::kzg::params::ParamsVerifierKZG::write', 'midnight_proofs::poly::kzg::params::ParamsVerifierKZG::read'),
+    ('midnight_zk_stdlib::ZkStdLibArch::write', 'midnight_zk_stdlib::ZkStdLibArch::read'),
+    ('midnight_zk_stdlib::MidnightVK::write', 'midnight_zk_stdlib::MidnightVK::read'),
+    ('midnight_zk_stdlib::MidnightPK::write', 'midnight_zk_stdlib::MidnightPK::read'),
+    ('<midnight_zkir::zkir::ZkirRelation as midnight_zk_stdlib::Relation>::write_relation',
+     '<midnight_zkir::zkir::ZkirRelation as midnight_zk_stdlib::Relation>::read_relation'),
+]
+_FP = 'midnight_proofs::circuit::floor_planner::'
+C17_HASH_ITER_OK = {
+    '<' + _FP + 'v1::V1 as midnight_proofs::plonk::circuit::FloorPlanner>::synthesize|HashMap::values':
+        'column_allocations.values().map(..).max(): a commutative reduction',
+    _FP + 'v1::strategy::slot_in::{closure#0}|HashSet::iter':
+        'region.columns() is collected into a Vec and sort_unstable()-ed before use (the source comments on it)',
+    _FP + 'v1::strategy::slot_in_biggest_advice_first::{closure#0}|HashSet::iter':
+        'sort key counts the advice columns of the set: filter(..).count() is order-insensitive',
+    '<' + _FP + 'single_pass::SingleChipLayouter as midnight_proofs::circuit::Layouter>::assign_region|<std::collections::hash::set::HashSet as core::iter::traits::collect::IntoIterator>::into_iter':
+        'first loop takes a max over the columns, second inserts region_start + rows under each column key: both order-insensitive',
+    '<' + _FP + 'single_pass::SingleChipLayouter as midnight_proofs::circuit::Layouter>::assign_table|HashMap::keys':
+        'pushes the table columns into self.table_columns, which is only queried with contains()',
+    '<' + _FP + 'single_pass::SingleChipLayouter as midnight_proofs::circuit::Layouter>::assign_table|<std::collections::hash::map::HashMap as core::iter::traits::collect::IntoIterator>::into_iter':
+        'fill_from_row per table column: each call writes only its own column',
+    _FP + 'v1::AssignmentPass::assign_table|HashMap::keys': 'same as single_pass assign_table: membership list only',
+    _FP + 'v1::AssignmentPass::assign_table|<std::collections::hash::map::HashMap as core::iter::traits::collect::IntoIterator>::into_iter':
+        'fill_from_row per table column: each call writes only its own column',
+    'midnight_proofs::circuit::table_layouter::compute_table_lengths|HashMap::iter':
+        'checks every column and folds the lengths for equality: the Ok value is order-insensitive (only which error is reported first may vary)',
+    'midnight_proofs::dev::cost_model::cost_model_options|HashSet::iter':
+        'development cost model (all()/max over region columns), not part of key generation; reachable only through class-hierarchy fan-out',
+    'midnight_circuits::verifier::kzg::construct_intermediate_sets|HashMap::iter':
+        'builds the inverse map point_index -> point: every insertion is addressed by the stored index (the source comments that key order is irrelevant)',
+    '<midnight_circuits::map::cpu::MapMt as core::iter::traits::collect::IntoIterator>::into_iter|<std::collections::hash::map::HashMap as core::iter::traits::collect::IntoIterator>::into_iter':
+        'CPU-side helper container exposing its own iteration; the edge is a class-hierarchy over-approximation of an unresolved IntoIterator::into_iter, it is not called during key generation',
+}
+C17_NONDET_OK = {}
